@@ -47,7 +47,7 @@ fn is_true_partition(n: usize, fam: &[usize]) -> bool {
 }
 
 /// Newman modularity in exact rationals (weights are small integers)
-fn modularity_oracle(b: &Built, fam: &[usize], weighted: bool, res_num: i128, res_den: i128) -> f64 {
+pub fn modularity_oracle(b: &Built, fam: &[usize], weighted: bool, res_num: i128, res_den: i128) -> f64 {
     let w = |e: &(usize, usize, f64)| -> i128 { if weighted { e.2 as i128 } else { 1 } };
     let m: i128 = b.edges.iter().map(w).sum();
     let mut total = Q::zero();
